@@ -39,6 +39,8 @@ for t in $targets; do
     race) go build -race -overlay="$OV" -o "$VERIF/bin/vsim-race" ./internal/vsim/cmd/vsim ;;
     crop) go test -c -vet=off -overlay="$OV" -o "$VERIF/bin/crop.test" ./cmd/mp4ff-crop ;;
     segmenter) go test -c -vet=off -overlay="$OV" -o "$VERIF/bin/segmenter.test" ./examples/segmenter ;;
+    resegmenter) go test -c -vet=off -overlay="$OV" -o "$VERIF/bin/resegmenter.test" ./examples/resegmenter ;;
+    combine) go test -c -vet=off -overlay="$OV" -o "$VERIF/bin/combine.test" ./examples/combine-segs ;;
     *) echo "unknown build target $t" >&2; exit 2 ;;
   esac
 done
